@@ -42,6 +42,7 @@ type ChanObj struct {
 	sendq  []*sendReq
 	elem   types.Type
 	timer  bool  // time.After style channel: may fire once
+	period *smt.Term // ticker: re-arms itself after firing
 	fired  bool
 	deadline *smt.Term
 	ctxDone bool // context Done channel (closed by cancel)
@@ -409,6 +410,10 @@ func (e *Engine) takeRecv(ch *ChanObj) (Value, bool) {
 			e.extraCtx["timers"] = b.(int) - 1
 		}
 		e.clockAdvanceTo(ch.deadline)
+		if ch.period != nil {
+			ch.fired = false
+			ch.deadline = e.ctx.Add(ch.deadline, ch.period)
+		}
 		return e.nowTimeValue(), true
 	}
 	if len(ch.buf) > 0 {
